@@ -229,6 +229,76 @@ def replay_file(path):
     return 0
 
 
+def _child(item, conn):
+    try:
+        conn.send(run_item(item))
+    except BaseException as ex:          # run_item reports its own errors; this is the last resort
+        try:
+            conn.send(dict(item=item, obligations=[dict(name=f"{item.get('pid')}:{item.get('spec')}", kind=item.get("kind"), verdict="ERROR",
+                                                        reason=repr(ex))], meta={}, wall=0))
+        except Exception:
+            pass
+    finally:
+        conn.close()
+
+
+def run_items(pid, items, jobs, limit_s=1500):
+    """every work item runs in a process of its OWN, forked from this (clean) parent: no item sees package state left
+    behind by another one (module-level caches of a changed tree made verdicts depend on which items had shared a pool
+    worker).  At most `jobs` at a time; an item whose process dies is run once more; an item beyond `limit_s` is
+    stopped and reported as an error."""
+    ctxm = mp.get_context("fork")
+    n = max(1, min(jobs, len(items)))
+    pending = list(enumerate(items))
+    running = {}
+    out = [None] * len(items)
+    attempts = {}
+
+    def start(i, it):
+        rx, tx = ctxm.Pipe(duplex=False)
+        pr = ctxm.Process(target=_child, args=(it, tx), daemon=True)
+        pr.start()
+        tx.close()
+        running[i] = (pr, rx, time.time(), it)
+    while pending or running:
+        while pending and len(running) < n:
+            i, it = pending.pop(0)
+            attempts[i] = attempts.get(i, 0) + 1
+            start(i, it)
+        import multiprocessing.connection as mpc
+        ready = mpc.wait([rx for (_, rx, _, _) in running.values()], timeout=1.0)
+        for i in list(running):
+            pr, rx, t1, it = running[i]
+            res = None
+            done = False
+            if rx in ready:
+                try:
+                    res = rx.recv()
+                except (EOFError, OSError):
+                    res = None
+                done = True
+            elif not pr.is_alive():
+                done = True
+            elif time.time() - t1 > limit_s:
+                pr.terminate()
+                res = dict(item=it, obligations=[dict(name=f"{pid}:{it.get('spec')}", kind="vc", verdict="ERROR",
+                                                      reason=f"item exceeded {limit_s} s")], meta={}, wall=limit_s)
+                done = True
+            if not done:
+                continue
+            pr.join(timeout=5)
+            rx.close()
+            del running[i]
+            if res is None:
+                if attempts[i] < 2:
+                    pending.append((i, it))           # the process died without an answer (native crash): once more
+                    continue
+                res = dict(item=it, obligations=[dict(name=f"{pid}:{it.get('spec')}", kind="vc", verdict="ERROR",
+                                                      reason=f"worker process died twice (exit code {pr.exitcode})")], meta={}, wall=0)
+            out[i] = res
+    return out
+
+
 def check_property(pid, tier, seed, jobs, verbose=False):
     t0 = time.time()
     try:
@@ -251,33 +321,7 @@ def check_property(pid, tier, seed, jobs, verbose=False):
         it["pid"] = pid
         it["tier"] = tier
         it["seed"] = seed
-    results = []
-    ctxm = mp.get_context("fork")
-    with cf.ProcessPoolExecutor(max_workers=max(1, min(jobs, len(items))), mp_context=ctxm) as ex:
-        futs = [ex.submit(run_item, it) for it in items]
-        failed = []
-        for it, f in zip(items, futs):
-            try:
-                results.append(f.result(timeout=1500))
-            except cf.TimeoutError as e:
-                # an item beyond every budget: stop its worker (the pool would otherwise wait for it for ever)
-                for pr in list(getattr(ex, "_processes", {}).values()):
-                    try:
-                        pr.terminate()
-                    except Exception:
-                        pass
-                failed.append((it, e))
-            except Exception as e:
-                failed.append((it, e))
-    # a worker that died (e.g. a native crash inside the solver) breaks the whole pool: every pending item fails
-    # with it.  Such items are run once more, each in a process of its own, before anything is reported.
-    for it, e in failed:
-        try:
-            with cf.ProcessPoolExecutor(max_workers=1, mp_context=ctxm) as ex1:
-                results.append(ex1.submit(run_item, it).result(timeout=1500))
-        except Exception as e2:
-            results.append(dict(item=it, obligations=[dict(name=f"{pid}:{it.get('spec')}", kind="vc", verdict="ERROR",
-                                                           reason=f"worker failed twice: {e!r}; {e2!r}")], meta={}, wall=0))
+    results = run_items(pid, items, jobs)
     return conclude(pid, tier, seed, P, results, t0, verbose)
 
 
